@@ -1215,12 +1215,6 @@ def tree_case(ctx, case, items_obj, items_idx, items_bad, items_hist=None):
             stage_path = src + "/" if slash else src
             try:
                 obs = run_obj(env, src, stage_path, idem=(ci == 0))
-                if obs.get("idem") is False:
-                    ctx.oracle_fail("C02:second-roundtrip-differs",
-                                    "rebuilding from the checked-out location gives another object id / Meta",
-                                    {**case, "configs": [list(cfg)]})
-                if "idem" in obs:
-                    dim(ctx, "second round trip (checkout -> rebuild -> same id)")
             except Exception as exc:  # noqa: BLE001
                 ctx.oracle_fail(f"C02:obj-exception:{type(exc).__name__}",
                                 f"object-level round trip raised {type(exc).__name__}: {exc}",
@@ -1228,6 +1222,12 @@ def tree_case(ctx, case, items_obj, items_idx, items_bad, items_hist=None):
                 continue
             for sig, what in obj_oracle(files, obs):
                 ctx.oracle_fail(sig, what, {**case, "configs": [list(cfg)]})
+            if obs.get("idem") is False:
+                ctx.oracle_fail("C02:second-roundtrip-differs",
+                            "rebuilding from the checked-out location gives another object id / Meta",
+                            {**case, "configs": [list(cfg)]})
+            if "idem" in obs:
+                dim(ctx, "second round trip (checkout -> rebuild -> same id)")
             if with_model:
                 head, ld, co = obj_expected(obs)
                 seen_obj.setdefault((stage_path, vL(head + [ld, co])), cfg)
